@@ -30,6 +30,7 @@ checked with plain BFS — the hypotheses of width_certificate / walkcover_conde
 import itertools, json, random, copy
 import networkx as nx
 from fpv import gen, models, k2
+from fpv.common import frac
 from props import c13
 
 THEOREMS = ["FP.Props.C09.kcover_sound", "FP.Props.C09.kcover_complete", "FP.Props.C09.kcover_feasible_iff",
@@ -77,7 +78,7 @@ TRUSTED = ["HiGHS reports kOptimal only with an assignment satisfying the LP and
            "(re-checked end to end: solved iff k >= brute-force minimum)",
            "nx.condensation returns the strongly connected components (the SCC labelling is an oracle parameter of the "
            "Lean model of stDiGraph.get_width)"]
-ASSUMPTIONS = ["coverage fraction 1 for subpath/subset constraints in the end-to-end oracles (fractions < 1 are covered by K2 only)",
+ASSUMPTIONS = ["DAG end-to-end oracles: subpath constraints at coverage 1, at edge-count fractions < 1 and at length fractions; cyclic ones: coverage 1 (fractions < 1 by K2 only)",
                "at least one edge (node) is not ignored",
                "every edge of the digraph lies on a walk from the global source to the global sink (fails for cycles without an "
                "entry from a source: stDiGraph attaches the source only to nodes of in-degree 0)"]
@@ -120,16 +121,29 @@ def route_sets(nodes, edges, starts, ends):
     return res
 
 
-def min_cover(sets, need, cons=()):
-    """smallest number of sets whose union contains `need` and such that every constraint is inside one of them"""
+def constraint_met(c, s, inst=None):
+    """does the route with edge set `s` contain enough of constraint `c` (property text: all of it, or the stated fraction of
+    its edges, or the stated fraction of its length)"""
+    c = [tuple(e) for e in c]
+    inst = inst or {}
+    if inst.get("coverage_length") is not None:
+        ln = {(u, v): frac(q) for u, v, q in inst.get("lengths", [])}
+        tot = sum(ln.get(e, 1) for e in c)
+        return sum(ln.get(e, 1) for e in c if e in s) >= frac(inst["coverage_length"]) * tot
+    cov = frac(inst.get("coverage", "1"))
+    return sum(1 for e in c if e in s) >= cov * len(c)
+
+
+def min_cover(sets, need, cons=(), inst=None):
+    """smallest number of sets whose union contains `need` and such that every constraint is met by one of them"""
     need = frozenset(need)
-    cons = [frozenset(c) for c in cons]
+    cons = [[tuple(e) for e in c] for c in cons]
     sets = list(set(sets))
     maximal = [s for s in sets if not any(s < t for t in sets)]
     for k in range(0, len(maximal) + 1):
         for combo in itertools.combinations(maximal, k):
             u = frozenset().union(*combo) if combo else frozenset()
-            if need <= u and all(any(c <= s for s in combo) for c in cons):
+            if need <= u and all(any(constraint_met(c, s, inst) for s in combo) for c in cons):
                 return k
     return None
 
@@ -143,7 +157,7 @@ def bf_minimum(inst, with_constraints=True):
     ign = {tuple(e) for e in inst.get("ignore", [])}
     need = [e for e in edges if e not in ign]
     cons = [[tuple(e) for e in c] for c in inst.get("constraints", [])] if with_constraints else []
-    return min_cover([es for (es, _) in rs], need, cons)
+    return min_cover([es for (es, _) in rs], need, cons, inst)
 
 
 def cover_problems(inst, routes):
@@ -165,9 +179,10 @@ def cover_problems(inst, routes):
         if e not in ign and not any(e in s for s in on):
             probs.append(f"edge {e} is not ignored and lies on no returned route")
     for c in inst.get("constraints", []):
-        cs = {tuple(e) for e in c}
-        if not any(cs <= s for s in on):
-            probs.append(f"constraint {c} is contained in no returned route")
+        if not any(constraint_met(c, s, inst) for s in on):
+            probs.append(f"constraint {c} is contained in no returned route"
+                         + (f" (coverage {inst.get('coverage')}, coverage_length {inst.get('coverage_length')})"
+                            if inst.get("coverage", "1") != "1" or inst.get("coverage_length") is not None else ""))
     return probs
 
 
@@ -288,6 +303,12 @@ def dag_instance(rng, node_mode=False):
             inst["ignore"] = [list(e) for i, e in enumerate(edges) if i != keep and rng.random() < 0.35]
         if rng.random() < 0.35:
             inst["constraints"] = [[list(e) for e in c] for c in gen.subpaths(rng, nodes, edges, contiguous=True)]
+            r2 = rng.random()
+            if inst["constraints"] and r2 < 0.25:            # partial coverage by number of edges
+                inst["coverage"] = rng.choice(["1/2", "3/4", "2/3"])
+            elif inst["constraints"] and r2 < 0.5:           # partial coverage by length
+                inst["lengths"] = [[u, v, str(rng.choice([1, 1, 2, 4]))] for u, v in edges]
+                inst["coverage_length"] = rng.choice(["3/4", "1/2", "1"])
     if rng.random() < 0.35:
         inst["starts"] = rng.sample(nodes, rng.randint(0, min(2, len(nodes))))
         inst["ends"] = rng.sample(nodes, rng.randint(0, min(2, len(nodes))))
